@@ -409,7 +409,7 @@ func c11Drive(fns []c11Fn, maxVar int) {
 	vp := f.VarParam()
 	nvar := 0
 	if vp != nil {
-		nvar = vChoice("nvar", maxVar+1+vTier())
+		nvar = vChoice("nvar", maxVar+1) // thorough tier: same counts, full menus at every position
 	}
 	// an argument list of the wrong length is an ordinary error
 	if vChoice("arity", 8) == 0 {
